@@ -171,7 +171,11 @@ def _find_shared_versions(my_versions, their_versions): # -> Option[list]:
     versions (consisting of arbitrary strings). We prefer a higher
     version from 'our' list over the other list.
     """
-    their_dilation_versions = set(their_versions)
+    # "their_versions" comes straight from the peer's (JSON) version message:
+    # anything that is not a list of strings cannot name a version we know
+    if not isinstance(their_versions, (list, tuple)):
+        their_versions = []
+    their_dilation_versions = {v for v in their_versions if isinstance(v, str)}
     shared_versions = set(my_versions).intersection(their_dilation_versions)
     best_version = None
 
